@@ -158,6 +158,12 @@ func (el *eventloop) cread(c *conn) error {
 
 		out, action := el.eventHandler.OnCReact(r, c)
 		if out != nil {
+			// The request is answered by the proxy itself. Fragments of it that were already handed
+			// to a redis connection stay queued there, so mark them done: their replies must be
+			// dropped instead of being matched against whatever request reuses the recycled message.
+			for _, f := range r.Body {
+				f.Done = true
+			}
 			// Encode data and try to write it back to the peer, this attempt is based on a fact:
 			// the peer socket waits for the response data after sending request data to the server,
 			// which makes the peer socket writable.
